@@ -207,6 +207,33 @@ Definition fingerprint_of (r : request) : fingerprint :=
          fp_inputs := rq_inputs r ++ map snd (isort ext_leb (extern_args (rq_args r))) |}
   end.
 
+(* rustc env-deps.  The crate names the variables it reads at compile time (env!, option_env!): [reads].  sccache
+   learns their values from an extra `rustc --emit dep-info` run whose environment is EXACTLY the client's
+   (Command::env_clear().envs(client)): the environment of the server process — which differs from one server start to
+   the next, and is that of an arbitrary client after an on-demand start — is not visible to it.  "Not set" and "set
+   but empty" are different observations. *)
+Fixpoint env_lookup (v : bytes) (env : list (bytes * bytes)) : option bytes :=
+  match env with
+  | [] => None
+  | (k, x) :: r => if bytes_eqb v k then Some x else env_lookup v r
+  end.
+
+Definition env_dep_value (o : option bytes) : bytes :=
+  match o with Some x => 1 :: x | None => [0] end.
+
+(* the environment the key-computation run of rustc is spawned with *)
+Definition spawn_env (server_env client_env : list (bytes * bytes)) : list (bytes * bytes) := client_env.
+
+Definition observed_env_deps (server_env client_env : list (bytes * bytes)) (reads : list bytes)
+  : list (bytes * bytes) :=
+  map (fun v => (v, env_dep_value (env_lookup v (spawn_env server_env client_env)))) reads.
+
+(* the request as the server (started from [server_env]) sees it, for a crate reading [reads] *)
+Definition request_in (server_env : list (bytes * bytes)) (reads : list bytes) (r : request) : request :=
+  {| rq_tag := rq_tag r; rq_lang := rq_lang r; rq_compiler := rq_compiler r; rq_args := rq_args r;
+     rq_env := rq_env r; rq_env_deps := observed_env_deps server_env (rq_env r) reads; rq_cwd := rq_cwd r;
+     rq_inputs := rq_inputs r; rq_outputs := rq_outputs r; rq_ppkey := rq_ppkey r |}.
+
 (* src/cache/disk.rs make_key_path: key[0..1] / key[1..2] / key *)
 Definition key_path (k : key) : key :=
   firstn 1 k ++ [47] ++ firstn 1 (skipn 1 k) ++ [47] ++ k.
@@ -242,6 +269,7 @@ Inductive kind :=
 | KCompileFailed
 | KNotCacheable
 | KError                               (* preprocessor failed: CompileResult::Error *)
+| KUnsupported                         (* "Compiler not supported": the request is refused *)
 | KFatal.                              (* Err(..): "sccache: encountered fatal error" *)
 
 Record outcome := {
@@ -418,6 +446,9 @@ Inductive event :=
 | EDelete (p : bytes)                 (* someone deletes a file of the client (e.g. an earlier output) *)
 | ERestart                            (* server stop + start on the same SCCACHE_DIR, same capacity *)
 | EIdle                               (* nothing happens for a while *)
+| EProbeFail (r : request)            (* request r arrives while the compiler cannot be probed (transient: the server's
+                                         temp directory is gone): "Compiler not supported", the client fails.  The
+                                         failure is not remembered as an answer: NOTHING changes *)
 | EDamage (p : key) (sz : N).         (* the entry file at cache path p is damaged (truncated to sz bytes, no longer a
                                          readable entry): a crash of the machine, a full disk, a bad copy *)
 
@@ -447,6 +478,8 @@ Definition step_event (w : world) (e : event) : world * option outcome :=
   | ERestart => (restart w, None)
   | EIdle => (w, None)
   | EDamage p sz => (damage w p sz, None)
+  | EProbeFail r =>
+      (w, Some {| oc_kind := KUnsupported; oc_compiled := false; oc_pre_ran := false; oc_stored := false |})
   end.
 
 Definition run_events (w : world) (h : list event) : world :=
